@@ -53,7 +53,7 @@ ASSUMPTIONS = ['master seeds are ints in [0, 2**32) (what numpy RandomState acce
                'collision counter is computed by the harness from numpy RandomState(seed).randint(high, dtype=uint32) (coverage only, not an oracle)']
 CONFIG = {
     'quick': {'shards': 16, 'cases': 40, 'timeout': 600, 'floor': 300, 'exh_seeds': 64},
-    'thorough': {'shards': 32, 'cases': 500, 'timeout': 3000, 'floor': 3000, 'exh_seeds': 192},
+    'thorough': {'shards': 32, 'cases': 1000, 'timeout': 5400, 'floor': 6000, 'exh_seeds': 192},
 }
 REQUIRED = ['contract_get_sub_seed', 'calls_nocache', 'calls_cached', 'agreements_checked', 'distinct_pairs_checked',
             'rejections_observed', 'rejections_negative', 'rejections_with_cache', 'exh_sequences', 'exh_blocks',
